@@ -116,8 +116,11 @@ class Auth(object):
             raise ValueError("invalid hash format")
         kind = parts[0]
         version = parts[1]
-        params = base64.b64decode(parts[2])
-        data = base64.b64decode(parts[3])
+        params = base64.b64decode(parts[2], validate=True)
+        data = base64.b64decode(parts[3], validate=True)
+
+        if base64.b64encode(params) != parts[2] or base64.b64encode(data) != parts[3]:
+            raise ValueError("invalid base64 encoding")
 
         if kind != b'scrypt' or version != b"1":
             raise ValueError("invalid method")
